@@ -199,3 +199,297 @@ def WFDesc (d : MProp) : Prop :=
   | _ => True
 
 end OttoVerif.C07.Lem
+
+/-! The heavy case enumerations live in this file (still namespace `Thm`, still audited) so that
+    `Theorems.lean` stays quick to rebuild. -/
+namespace OttoVerif.C07.Thm
+open OttoVerif.C07 OttoVerif.C07.Spec OttoVerif.C07.Driver OttoVerif.C07.Lem
+
+/-! ## [[DefineOwnProperty]] (§8.12.9), one property -/
+
+/-- the single-property refinement statement -/
+def PropGoal (prop d : MProp) : Prop :=
+  devG prop d = false → devA2D prop d = false →
+   (defineProp prop d).map (fun r => absProp (r.getD prop))
+   = (sDefineProp (absProp prop) (absDesc d)).map (fun r => r.getD (absProp prop))
+
+macro "unfold_model" : tactic => `(tactic|
+  simp only [PropGoal, devG, devA2D, defineProp, defineSwitch, MProp.isEmpty, MProp.isGenericDescriptor, MProp.isDataDescriptor,
+    MProp.isAccessorDescriptor, writable_eq, writeSet_eq, enumerable_eq, enumerateSet_eq, configurable_eq, mode222_eq, mergeMode_eq])
+
+theorem fieldSame_none {α} [DecidableEq α] (c : Option α) : fieldSame none c = true := rfl
+theorem fieldSame_some_none {α} [DecidableEq α] (x : α) : fieldSame (some x) none = false := by
+  simp [fieldSame]
+theorem fieldSame_some_some {α} [DecidableEq α] (x y : α) : fieldSame (some x) (some y) = decide (y = x) := by
+  simp [fieldSame]; rfl
+
+macro "unfold_spec" : tactic => `(tactic|
+  simp only [sDefineProp, absProp, absDesc, allAbsent, subsumed, fieldSame_none, fieldSame_some_none, fieldSame_some_some, ofProp, validate, applyFields,
+     Spec.isGenericDescriptor, Spec.isDataDescriptor, Spec.isAccessorDescriptor, SProp.configurable, SProp.enumerable, SProp.isData,
+     Option.isSome, Option.isNone, Option.getD, slotField, slotFn, normSlot])
+
+macro "trits" : tactic => `(tactic|
+  (intro h1 h2 <;> first | rfl | exact Bool.noConfusion h1 | exact Bool.noConfusion h2))
+
+theorem neqForms {α} [DecidableEq α] {a b : α} (h : a ≠ b) :
+   (a != b) = true ∧ (b != a) = true ∧ (a == b) = false ∧ (b == a) = false ∧
+   decide (a = b) = false ∧ decide (b = a) = false ∧ (some a != some b) = true ∧ (some b != some a) = true := by
+  have h' : b ≠ a := fun e => h e.symm
+  simp [h, h']
+
+
+set_option maxHeartbeats 2000000 in
+theorem caseVN (pv : Val) (pw pe pc dw de dc : Trit) : PropGoal ⟨.val pv, ⟨pw,pe,pc⟩⟩ ⟨.nil, ⟨dw,de,dc⟩⟩ := by
+  unfold_model
+  unfold_spec
+  cases pw <;> cases pe <;> cases pc <;> cases dw <;> cases de <;> cases dc <;> trits
+
+set_option maxHeartbeats 4000000 in
+theorem caseVV (pv dv : Val) (pw pe pc dw de dc : Trit) : PropGoal ⟨.val pv, ⟨pw,pe,pc⟩⟩ ⟨.val dv, ⟨dw,de,dc⟩⟩ := by
+  unfold_model
+  unfold_spec
+  by_cases hv : dv = pv
+  · subst hv
+    try simp only [bne_self_eq_false, beq_self_eq_true, eq_self, decide_true]
+    cases pw <;> cases pe <;> cases pc <;> cases dw <;> cases de <;> cases dc <;> trits
+  · obtain ⟨e1, e2, e3, e4, e5, e6, e7, e8⟩ := neqForms hv
+    try simp only [e1, e2, e3, e4, e5, e6, e7, e8]
+    cases pw <;> cases pe <;> cases pc <;> cases dw <;> cases de <;> cases dc <;> trits
+
+set_option maxHeartbeats 2000000 in
+theorem caseGN (pg ps : Slot) (hg : pg ≠ .nilObj) (hs : ps ≠ .nilObj) (pe pc dw de dc : Trit) :
+    PropGoal ⟨.gs pg ps, ⟨.unset,pe,pc⟩⟩ ⟨.nil, ⟨dw,de,dc⟩⟩ := by
+  unfold_model
+  unfold_spec
+  cases pg <;> cases ps <;> first | exact absurd rfl hg | exact absurd rfl hs |
+   (cases pe <;> cases pc <;> cases dw <;> cases de <;> cases dc <;> trits)
+
+set_option maxHeartbeats 2000000 in
+theorem caseGV (pg ps : Slot) (hg : pg ≠ .nilObj) (hs : ps ≠ .nilObj) (dv : Val) (pe pc dw de dc : Trit) :
+    PropGoal ⟨.gs pg ps, ⟨.unset,pe,pc⟩⟩ ⟨.val dv, ⟨dw,de,dc⟩⟩ := by
+  unfold_model
+  unfold_spec
+  cases pg <;> cases ps <;> first | exact absurd rfl hg | exact absurd rfl hs |
+   (cases pe <;> cases pc <;> cases dw <;> cases de <;> cases dc <;> trits)
+
+set_option maxHeartbeats 4000000 in
+theorem caseVG (pv : Val) (dg ds : Slot) (hd : dg ≠ .nil ∨ ds ≠ .nil) (pw pe pc de dc : Trit) :
+    PropGoal ⟨.val pv, ⟨pw,pe,pc⟩⟩ ⟨.gs dg ds, ⟨.unset,de,dc⟩⟩ := by
+  unfold_model
+  unfold_spec
+  try simp only [bne_self_eq_false, beq_self_eq_true, eq_self, decide_true]
+  cases dg <;> cases ds <;> first | (exfalso; exact hd.elim (fun h => h rfl) (fun h => h rfl)) |
+   (cases pw <;> cases pe <;> cases pc <;> cases de <;> cases dc <;> trits)
+
+theorem slotNeq {k1 k2 : Fn} (h : k1 ≠ k2) :
+    (Slot.fn k1 != Slot.fn k2) = true ∧ (Slot.fn k2 != Slot.fn k1) = true ∧
+    (Slot.fn k1 == Slot.fn k2) = false ∧ (Slot.fn k2 == Slot.fn k1) = false ∧
+    ((some k1 : Option Fn) != some k2) = true ∧ ((some k2 : Option Fn) != some k1) = true ∧
+    decide ((some k1 : Option Fn) = some k2) = false ∧ decide ((some k2 : Option Fn) = some k1) = false := by
+  have h' : k2 ≠ k1 := fun e => h e.symm
+  simp [h, h']
+
+
+def pslot : Option Fn → Slot
+  | none => .nil
+  | some k => .fn k
+
+def dslot : Option (Option Fn) → Slot
+  | none => .nil
+  | some none => .nilObj
+  | some (some k) => .fn k
+
+set_option hygiene false in
+macro "fin4" : tactic => `(tactic|
+  ((try simp only [bne_self_eq_false, beq_self_eq_true, eq_self, decide_true]) <;>
+   cases pe <;> cases pc <;> cases de <;> cases dc <;> trits))
+
+macro "atom" h:ident : tactic => `(tactic|
+  first
+  | subst $h
+  | (obtain ⟨e1, e2, e3, e4, e5, e6, e7, e8⟩ := slotNeq $h
+     try simp only [e1, e2, e3, e4, e5, e6, e7, e8]))
+
+set_option maxHeartbeats 16000000 in
+theorem caseGG (a b : Option Fn) (x y : Option (Option Fn)) (hd : dslot x ≠ .nil ∨ dslot y ≠ .nil) (pe pc de dc : Trit) :
+    PropGoal ⟨.gs (pslot a) (pslot b), ⟨.unset,pe,pc⟩⟩ ⟨.gs (dslot x) (dslot y), ⟨.unset,de,dc⟩⟩ := by
+  rcases a with _ | k1 <;> rcases b with _ | k2 <;> rcases x with _ | _ | k3 <;> rcases y with _ | _ | k4 <;>
+    simp only [pslot, dslot] at hd ⊢ <;>
+    first
+    | (exfalso; exact hd.elim (fun h => h rfl) (fun h => h rfl))
+    | (unfold_model
+       unfold_spec
+       try simp only [reduceCtorEq, ↓reduceIte]
+       first
+       | (by_cases h13 : k1 = k3 <;> by_cases h24 : k2 = k4 <;> atom h13 <;> atom h24 <;> fin4)
+       | (by_cases h13 : k1 = k3 <;> atom h13 <;> fin4)
+       | (by_cases h24 : k2 = k4 <;> atom h24 <;> fin4)
+       | fin4)
+
+theorem pslot_slotFn {g : Slot} (h : g ≠ .nilObj) : pslot (slotFn g) = g := by
+  cases g <;> first | rfl | exact absurd rfl h
+
+theorem dslot_slotField (g : Slot) : dslot (slotField g) = g := by cases g <;> rfl
+
+/-- **[[DefineOwnProperty]] on an existing property** (object_class.go:337-441 vs §8.12.9 steps 5-13):
+    for EVERY well-formed stored property and EVERY descriptor `toPropertyDescriptor` can produce,
+    outside the two single-property deviation regions otto rejects exactly when ES5 rejects and
+    the property written has exactly the ES5 attributes. -/
+theorem defineProp_refines (prop d : MProp) (hp : WFProp prop) (hd : WFDesc d) : PropGoal prop d := by
+  obtain ⟨pval, ⟨pw, pe, pc⟩⟩ := prop
+  obtain ⟨dval, ⟨dw, de, dc⟩⟩ := d
+  cases pval with
+  | nil => exact hp.elim
+  | val pv =>
+    cases dval with
+    | nil => exact caseVN pv pw pe pc dw de dc
+    | val dv => exact caseVV pv dv pw pe pc dw de dc
+    | gs dg ds =>
+      obtain ⟨hw, hne⟩ := hd
+      simp only at hw
+      subst hw
+      exact caseVG pv dg ds hne pw pe pc de dc
+  | gs pg ps =>
+    obtain ⟨hg, hs, hw⟩ := hp
+    simp only at hw
+    subst hw
+    cases dval with
+    | nil => exact caseGN pg ps hg hs pe pc dw de dc
+    | val dv => exact caseGV pg ps hg hs dv pe pc dw de dc
+    | gs dg ds =>
+      obtain ⟨hw, hne⟩ := hd
+      simp only at hw
+      subst hw
+      have := caseGG (slotFn pg) (slotFn ps) (slotField dg) (slotField ds)
+        (by rw [dslot_slotField, dslot_slotField]; exact hne) pe pc de dc
+      rw [pslot_slotFn hg, pslot_slotFn hs, dslot_slotField, dslot_slotField] at this
+      exact this
+
+/-! ## well-formedness is preserved by [[DefineOwnProperty]] outside `acc_to_data_keeps_accessor` -/
+
+/-- Boolean form of `WFProp` -/
+def wfb (p : MProp) : Bool :=
+  match p.value with
+  | .nil => false
+  | .val _ => true
+  | .gs g s => (match g with | .nilObj => false | _ => true) && (match s with | .nilObj => false | _ => true) &&
+      (match p.mode.w with | .unset => true | _ => false)
+
+theorem wfb_iff (p : MProp) : wfb p = true ↔ WFProp p := by
+  obtain ⟨v, ⟨w, e, c⟩⟩ := p
+  cases v with
+  | nil => simp [wfb, WFProp]
+  | val v => simp [wfb, WFProp]
+  | gs g s => cases g <;> cases s <;> cases w <;> simp [wfb, WFProp]
+
+def WFGoal (prop d : MProp) : Prop :=
+  devA2D prop d = false → (match defineProp prop d with | some (some p) => wfb p | _ => true) = true
+
+macro "unfold_wf" : tactic => `(tactic|
+  simp only [WFGoal, devA2D, defineProp, defineSwitch, MProp.isEmpty, MProp.isGenericDescriptor, MProp.isDataDescriptor,
+    MProp.isAccessorDescriptor, writable_eq, writeSet_eq, enumerable_eq, enumerateSet_eq, configurable_eq, mode222_eq, mergeMode_eq,
+    normSlot])
+
+macro "trits1" : tactic => `(tactic| (intro h1 <;> first | rfl | exact Bool.noConfusion h1))
+
+set_option maxHeartbeats 2000000 in
+theorem wfVN (pv : Val) (pw pe pc dw de dc : Trit) : WFGoal ⟨.val pv, ⟨pw,pe,pc⟩⟩ ⟨.nil, ⟨dw,de,dc⟩⟩ := by
+  unfold_wf
+  cases pw <;> cases pe <;> cases pc <;> cases dw <;> cases de <;> cases dc <;> trits1
+
+set_option maxHeartbeats 4000000 in
+theorem wfVV (pv dv : Val) (pw pe pc dw de dc : Trit) : WFGoal ⟨.val pv, ⟨pw,pe,pc⟩⟩ ⟨.val dv, ⟨dw,de,dc⟩⟩ := by
+  unfold_wf
+  by_cases hv : dv = pv
+  · subst hv
+    try simp only [bne_self_eq_false, beq_self_eq_true, eq_self, decide_true]
+    cases pw <;> cases pe <;> cases pc <;> cases dw <;> cases de <;> cases dc <;> trits1
+  · obtain ⟨e1, e2, e3, e4, e5, e6, e7, e8⟩ := neqForms hv
+    try simp only [e1, e2, e3, e4, e5, e6, e7, e8]
+    cases pw <;> cases pe <;> cases pc <;> cases dw <;> cases de <;> cases dc <;> trits1
+
+set_option maxHeartbeats 2000000 in
+theorem wfGN (pg ps : Slot) (hg : pg ≠ .nilObj) (hs : ps ≠ .nilObj) (pe pc dw de dc : Trit) :
+    WFGoal ⟨.gs pg ps, ⟨.unset,pe,pc⟩⟩ ⟨.nil, ⟨dw,de,dc⟩⟩ := by
+  unfold_wf
+  cases pg <;> cases ps <;> first | exact absurd rfl hg | exact absurd rfl hs |
+   (cases pe <;> cases pc <;> cases dw <;> cases de <;> cases dc <;> trits1)
+
+set_option maxHeartbeats 2000000 in
+theorem wfGV (pg ps : Slot) (dv : Val) (pe pc dw de dc : Trit) :
+    WFGoal ⟨.gs pg ps, ⟨.unset,pe,pc⟩⟩ ⟨.val dv, ⟨dw,de,dc⟩⟩ := by
+  unfold_wf
+  cases pg <;> cases ps <;> cases pe <;> cases pc <;> cases dw <;> cases de <;> cases dc <;> trits1
+
+set_option maxHeartbeats 4000000 in
+theorem wfVG (pv : Val) (dg ds : Slot) (pw pe pc de dc : Trit) :
+    WFGoal ⟨.val pv, ⟨pw,pe,pc⟩⟩ ⟨.gs dg ds, ⟨.unset,de,dc⟩⟩ := by
+  unfold_wf
+  cases dg <;> cases ds <;> cases pw <;> cases pe <;> cases pc <;> cases de <;> cases dc <;> trits1
+
+set_option hygiene false in
+macro "fin4w" : tactic => `(tactic|
+  ((try simp only [bne_self_eq_false, beq_self_eq_true, eq_self, decide_true]) <;>
+   cases pe <;> cases pc <;> cases de <;> cases dc <;> trits1))
+
+set_option maxHeartbeats 16000000 in
+theorem wfGG (a b : Option Fn) (x y : Option (Option Fn)) (pe pc de dc : Trit) :
+    WFGoal ⟨.gs (pslot a) (pslot b), ⟨.unset,pe,pc⟩⟩ ⟨.gs (dslot x) (dslot y), ⟨.unset,de,dc⟩⟩ := by
+  rcases a with _ | k1 <;> rcases b with _ | k2 <;> rcases x with _ | _ | k3 <;> rcases y with _ | _ | k4 <;>
+    simp only [pslot, dslot] <;>
+    (unfold_wf
+     try simp only [reduceCtorEq, ↓reduceIte]
+     first
+       | (by_cases h13 : k1 = k3 <;> by_cases h24 : k2 = k4 <;> atom h13 <;> atom h24 <;> fin4w)
+       | (by_cases h13 : k1 = k3 <;> atom h13 <;> fin4w)
+       | (by_cases h24 : k2 = k4 <;> atom h24 <;> fin4w)
+       | fin4w)
+
+/-- an accepted redefinition of a well-formed property by a well-formed descriptor writes a
+    well-formed property, outside `acc_to_data_keeps_accessor` -/
+theorem defineProp_wf (prop d p : MProp) (hp : WFProp prop) (hd : WFDesc d) (hdev : devA2D prop d = false)
+    (h : defineProp prop d = some (some p)) : WFProp p := by
+  have key : WFGoal prop d := by
+    obtain ⟨pval, ⟨pw, pe, pc⟩⟩ := prop
+    obtain ⟨dval, ⟨dw, de, dc⟩⟩ := d
+    cases pval with
+    | nil => exact hp.elim
+    | val pv =>
+      cases dval with
+      | nil => exact wfVN pv pw pe pc dw de dc
+      | val dv => exact wfVV pv dv pw pe pc dw de dc
+      | gs dg ds =>
+        obtain ⟨hw, _⟩ := hd
+        simp only at hw
+        subst hw
+        exact wfVG pv dg ds pw pe pc de dc
+    | gs pg ps =>
+      obtain ⟨hg, hs, hw⟩ := hp
+      simp only at hw
+      subst hw
+      cases dval with
+      | nil => exact wfGN pg ps hg hs pe pc dw de dc
+      | val dv => exact wfGV pg ps dv pe pc dw de dc
+      | gs dg ds =>
+        obtain ⟨hw, _⟩ := hd
+        simp only at hw
+        subst hw
+        have := wfGG (slotFn pg) (slotFn ps) (slotField dg) (slotField ds) pe pc de dc
+        rw [pslot_slotFn hg, pslot_slotFn hs, dslot_slotField, dslot_slotField] at this
+        exact this
+  have := key hdev
+  rw [h] at this
+  exact (wfb_iff p).1 this
+
+theorem createProp_wf (d : MProp) (hd : WFDesc d) : WFProp (createProp d) := by
+  obtain ⟨dval, ⟨dw, de, dc⟩⟩ := d
+  cases dval with
+  | nil => trivial
+  | val v => trivial
+  | gs g s =>
+    obtain ⟨hw, _⟩ := hd
+    simp only at hw
+    subst hw
+    cases g <;> cases s <;> exact ⟨by simp [createProp, normSlot], by simp [createProp, normSlot], rfl⟩
+
+end OttoVerif.C07.Thm
